@@ -1,5 +1,6 @@
 import PsycheModel.ParserProtocol
 import PsycheModel.Generated.Recovery
+import PsycheModel.ParseNet
 /-!
 # C01 — Syntax analysis is total and memory-safe (the part that is logic)
 
@@ -275,3 +276,59 @@ example : [Op.consume, .consume, .skipTo .CloseBraceToken, .consume, .consume, .
   decide
 
 end PsycheModel.ParserProtocol
+
+/-! ## Malformed input is answered with diagnostics: the net under the parser's failures -/
+namespace PsycheModel.ParseNet
+
+theorem failed_of_noted : ∀ (ops : List Op) (s : St), (s.failed.isSome = true ∨ notedOutside s ops = true) →
+    (ops.foldl step s).failed.isSome = true
+  | [], s, h => by
+    rcases h with h | h
+    · exact h
+    · simp [notedOutside] at h
+  | op :: rest, s, h => by
+    simp only [List.foldl_cons]
+    apply failed_of_noted rest (step s op)
+    rcases h with h | h
+    · left
+      cases op <;> simp only [step] <;> (try split) <;> simp_all
+    · simp only [notedOutside, Bool.or_eq_true] at h
+      rcases h with h | h
+      · left
+        cases op with
+        | note tk =>
+          have hb : s.bt = 0 := by simpa using h
+          cases hf : s.failed with
+          | some x => simp [step, hf]
+          | none => simp [step, hf, hb]
+        | diag => simp at h
+        | push => simp at h
+        | pop => simp at h
+      · right; exact h
+
+/-- **Whenever a rule gave up on a construct outside every speculative parse, the finished parse has at least one
+diagnostic** — whatever else happened: however many rules failed silently, however many diagnostics were swallowed while a
+backtracker was alive, in any interleaving. -/
+theorem failure_is_diagnosed (ops : List Op) (h : notedOutside {} ops = true) : 1 ≤ (finish (run ops)).diags := by
+  have hf := failed_of_noted ops {} (.inr h)
+  unfold finish run
+  by_cases hd : (ops.foldl step {}).diags = 0
+  · simp [hf, hd]
+  · have : (if ((ops.foldl step {}).failed.isSome && decide ((ops.foldl step {}).diags = 0)) = true then
+        { (ops.foldl step {}) with diags := 1 } else ops.foldl step {}) = ops.foldl step {} := by simp [hd]
+    rw [this]
+    omega
+
+/-- … and the net adds nothing to a parse that has diagnostics of its own, nor to one without failures -/
+theorem net_is_silent_otherwise (s : St) (h : s.failed = none ∨ 1 ≤ s.diags) : finish s = s := by
+  unfold finish
+  rcases h with h | h
+  · simp [h]
+  · have : ¬ s.diags = 0 := by omega
+    simp [this]
+
+/-- non-vacuity: a diagnostic swallowed under a backtracker, then the construct noted after it is discarded -/
+example : notedOutside {} [.push, .diag, .note 3, .pop, .note 5] = true ∧ (run [.push, .diag, .note 3, .pop, .note 5]).diags = 0 ∧
+    (finish (run [.push, .diag, .note 3, .pop, .note 5])) = { diags := 1, failed := some 5, bt := 0 } := by decide
+
+end PsycheModel.ParseNet
